@@ -598,7 +598,10 @@ inline void ThreadPool::forceEnqueue(F&& f, moodycamel::ProducerToken* token) {
 template <typename F>
 DISPENSO_REQUIRES(OnceCallableFunc<F>)
 inline void ThreadPool::schedule(F&& f) {
-  if (shouldRunInline()) {
+  // Depth-limit inline execution (as ConcurrentTaskSet does): a task that schedules its successor
+  // on an overloaded pool would otherwise nest one stack frame per task without bound.
+  if (shouldRunInline() && detail::PerPoolPerThreadInfo::canInlineSchedule()) {
+    detail::InlineDepthGuard depthGuard;
     f();
   } else {
     schedule(std::forward<F>(f), ForceQueuingTag());
@@ -615,7 +618,8 @@ inline void ThreadPool::schedule(F&& f, ForceQueuingTag) {
 
 template <typename F>
 inline void ThreadPool::schedule(moodycamel::ProducerToken& token, F&& f) {
-  if (shouldRunInline()) {
+  if (shouldRunInline() && detail::PerPoolPerThreadInfo::canInlineSchedule()) {
+    detail::InlineDepthGuard depthGuard;
     f();
   } else {
     schedule(token, std::forward<F>(f), ForceQueuingTag());
@@ -630,7 +634,8 @@ inline void ThreadPool::schedule(moodycamel::ProducerToken& token, F&& f, ForceQ
 template <typename F>
 DISPENSO_REQUIRES(OnceCallableFunc<F>)
 inline void ThreadPool::schedulePlaced(F&& f) {
-  if (shouldRunInline()) {
+  if (shouldRunInline() && detail::PerPoolPerThreadInfo::canInlineSchedule()) {
+    detail::InlineDepthGuard depthGuard;
     f();
   } else {
     schedulePlaced(std::forward<F>(f), ForceQueuingTag());
@@ -647,7 +652,8 @@ inline void ThreadPool::schedulePlaced(F&& f, ForceQueuingTag) {
 
 template <typename F>
 inline void ThreadPool::schedulePlaced(moodycamel::ProducerToken& token, F&& f) {
-  if (shouldRunInline()) {
+  if (shouldRunInline() && detail::PerPoolPerThreadInfo::canInlineSchedule()) {
+    detail::InlineDepthGuard depthGuard;
     f();
   } else {
     schedulePlaced(token, std::forward<F>(f), ForceQueuingTag());
